@@ -469,7 +469,8 @@ func (r *Runtime) arrayproto_splice(call FunctionCall) Value {
 		panic(r.NewTypeError("Invalid array length"))
 	}
 	a := arraySpeciesCreate(o, actualDeleteCount)
-	if src := r.checkStdArrayObj(o); src != nil {
+	// (the fast path does not go through [[Set]] / [[DefineOwnProperty]]: growing needs a writable length and extensibility)
+	if src := r.checkStdArrayObj(o); src != nil && (itemCount <= actualDeleteCount || src.lengthProp.writable && src.extensible) {
 		if dst := r.checkStdArrayObjWithProto(a); dst != nil {
 			values := make([]Value, actualDeleteCount)
 			copy(values, src.values[actualStart:])
@@ -562,7 +563,7 @@ func (r *Runtime) arrayproto_unshift(call FunctionCall) Value {
 		if newSize >= maxInt {
 			panic(r.NewTypeError("Invalid array length"))
 		}
-		if arr := r.checkStdArrayObjWithProto(o); arr != nil && newSize < math.MaxUint32 {
+		if arr := r.checkStdArrayObjWithProto(o); arr != nil && newSize < math.MaxUint32 && arr.lengthProp.writable && arr.extensible {
 			if int64(cap(arr.values)) >= newSize {
 				arr.values = arr.values[:newSize]
 				copy(arr.values[argCount:], arr.values[:length])
